@@ -39,6 +39,8 @@ type params struct {
 	AllValues bool `json:"all_values,omitempty"`
 	// Dup (library sender): the message under attack is offered twice in its block.
 	Dup bool `json:"dup,omitempty"`
+	// Modem (library sender): the sender's connection implements transport.Flusher and transport.TxBuffer.
+	Modem bool `json:"modem,omitempty"`
 }
 
 var Check = &vrt.Check{
@@ -104,6 +106,13 @@ func plan(seed int64, tier string) []vrt.Case {
 		for _, kind := range []string{"subst", "pairs", "struct"} {
 			cs = append(cs, vrt.Case{ID: fmt.Sprintf("lib-dup-m%d-%s", m, kind), TimeoutS: 1200,
 				Params: vrt.MustParams(params{Seed: seed, Leg: "lib", Msg: m, Kind: kind, Shard: 0, Shards: map[string]int{"subst": 8, "pairs": 1, "struct": 1}[kind], Pairs: 150, Dup: true})})
+		}
+	}
+	// the sender on a modem-like transport (Flush blocks until the link has taken everything)
+	for _, m := range msgs {
+		for _, kind := range []string{"subst", "pairs", "struct"} {
+			cs = append(cs, vrt.Case{ID: fmt.Sprintf("lib-modem-m%d-%s", m, kind), TimeoutS: 1200,
+				Params: vrt.MustParams(params{Seed: seed, Leg: "lib", Msg: m, Kind: kind, Shard: 0, Shards: map[string]int{"subst": 8, "pairs": 1, "struct": 1}[kind], Pairs: 150, Modem: true})})
 		}
 	}
 	// gzip payloads (GZIP_EXPERIMENT on both stations)
@@ -172,6 +181,9 @@ type libLeg struct {
 	t    *target
 	gzip bool
 	dup  bool
+	// modem: the sending station's connection is a modem-like transport (transport.Flusher / TxBuffer, as the
+	// ardop and agwpe connections are): bookkeeping must not depend on the transport kind
+	modem bool
 }
 
 func newLibLeg(class, block, tgt int, gzip bool) (*libLeg, error) {
@@ -242,6 +254,9 @@ func (l *libLeg) exec(edits []vpipe.Edit, record bool) (b2fx.Result, *vpipe.Link
 	sa, sb := l.sc.Sides(a, b)
 	if l.dup {
 		sa.Handler = dupOut{a.AsHandler()}
+	}
+	if l.modem {
+		sa.Modem = true
 	}
 	var pl vpipe.Plan
 	pl.CutDir = vpipe.NoCut
@@ -457,6 +472,13 @@ func run(c vrt.Case) vrt.Obs {
 	var err error
 	if p.Leg == "lib" && p.Dup {
 		l, err = newLibLegDup(p.Msg)
+	} else if p.Leg == "lib" && p.Modem {
+		var ll *libLeg
+		ll, err = newLibLeg(p.Msg, p.Block, p.Target, p.Gzip)
+		if ll != nil {
+			ll.modem = true
+		}
+		l = ll
 	} else if p.Leg == "lib" {
 		l, err = newLibLeg(p.Msg, p.Block, p.Target, p.Gzip)
 	} else {
